@@ -13,7 +13,7 @@
      ([ue_cause]); a non-mapping argument gives ValueError.
    Definitions only; proofs in ErrsTyProofs.v. *)
 From Coq Require Import List String Ascii ZArith Bool Lia.
-From Verif Require Import Core TyModel Errs.
+From Verif Require Import Core TupleIdx TyModel Errs.
 Import ListNotations.
 Open Scope string_scope.
 Open Scope Z_scope.
@@ -102,7 +102,13 @@ Section ERun.
                 end) us (utf8_chars s) ;;
         Ok (VTuple r)
     | UDictComp _ _ => Exn XAttributeError
-    | UTupleU _ _ _ _ => Exn (XOther "unsupported: tuple with an unpacked segment")   (* modelled by TyModel.uk only; the C05 stream excludes it *)
+    | UTupleU plan pre umid post =>
+        r <- tu_walk on_u (const_dec E) (Some (utf8_chars s)) plan pre post
+               (match umid with
+                | UTupleVar u' => mid_var on_u u'
+                | UTupleFix us => mid_fix on_u (const_dec E) (none_tail E) us
+                | _ => fun _ => Exn XTypeError end) ;;
+        Ok (VTuple r)
     | UData c => match sfind E KData c with
                  | Some _ => Exn XValueError
                  | None => Exn XAttributeError end
@@ -194,6 +200,55 @@ Section ERun.
                       end) us ;;
               Ok (VTuple r)
           end
+      | UTupleU plan pre umid post =>
+          (* Tuple[pre..., *mid, post...]: [u0(value[0]), ..., *umid(value[i:j]), ..., uk(value[-1])]:
+             an index past the end is IndexError, a slice never fails (a short input starves the unpacked segment
+             or makes head and tail positions overlap), a non-subscriptable value is TypeError; an item's own
+             exception propagates unchanged (TyModel.tu_walk) *)
+          match d with
+          | VStr s => ue_str (List.length E) u s
+          | VDict kvs =>
+              (* value[i] on a dict reads the entry under the int key i (KeyError without one); the slice
+                 value[i:j] is a KeyError (slices are hashable since Python 3.12) unless the unpacked segment is
+                 constant and never slices *)
+              let entries : list (pv * (pdec -> res pv)) :=
+                  map (fun p => match p with (key, x) => (key, ue x) end) kvs in
+              let ones := fix ones (plan: list aidx) (ds: list pdec) {struct ds} : res (list pv) :=
+                  match ds, plan with
+                  | [], [] => Ok []
+                  | u' :: ds', a :: plan' =>
+                      y <- match const_dec E u' with
+                           | Some c0 => Ok c0
+                           | None => match a with
+                                     | AI i => match look_k entries (VInt i) with
+                                               | Some dx => dx u'
+                                               | None => Exn XKeyError end
+                                     | ASl _ _ => Exn XTypeError end
+                           end ;;
+                      ys <- ones plan' ds' ;; Ok (y :: ys)
+                  | _, _ => Exn XTypeError
+                  end in
+              let np := List.length pre in
+              a <- ones (firstn np plan) pre ;;
+              m <- match umid with
+                   | UTupleFix us => match omapM (const_dec E) us with
+                                     | Some cs => Ok cs
+                                     | None => Exn XKeyError end
+                   | UTupleVar _ => Exn XKeyError
+                   | _ => Exn XTypeError end ;;
+              b <- ones (skipn (S np) plan) post ;;
+              Ok (VTuple (a ++ m ++ b)%list)
+          | _ =>
+              let run := fun (u': pdec) (dx: pdec -> res pv) => dx u' in
+              let items : option (list (pdec -> res pv)) :=
+                  match d with VList l | VTuple l => Some (map (fun x => ue x) l) | _ => None end in
+              r <- tu_walk run (const_dec E) items plan pre post
+                     (match umid with
+                      | UTupleVar u' => mid_var run u'
+                      | UTupleFix us => mid_fix run (const_dec E) (none_tail E) us
+                      | _ => fun _ => Exn XTypeError end) ;;
+              Ok (VTuple r)
+          end
       | UDictComp ku vu =>
           match d with
           | VDict kvs =>
@@ -202,7 +257,6 @@ Section ERun.
                                     if hashable k' then Ok (k', x') else Exn XTypeError end) kvs ;;
               Ok (VDict (dict_of_pairs r))
           | _ => Exn XAttributeError end                  (* .items() *)
-      | UTupleU _ _ _ _ => Exn (XOther "unsupported: tuple with an unpacked segment")
       | UData c =>
           match sfind E KData c with
           | None => Exn XAttributeError
